@@ -114,7 +114,7 @@ class _State:
         self.decided = {}
         self.effects = []
         self.blocks = []
-        self.visited = set()
+        self.visited = {}
 
     def fork(self):
         s = _State()
@@ -123,13 +123,13 @@ class _State:
         s.decided = dict(self.decided)
         s.effects = list(self.effects)
         s.blocks = list(self.blocks)
-        s.visited = set(self.visited)
+        s.visited = dict(self.visited)
         return s
 
 
 class Explorer:
     def __init__(self, fn, is_effect=None, pure=None, model=None, stop_at=(), max_paths=MAX_PATHS_DEFAULT,
-                 record_stores=True, bool_types=True):
+                 record_stores=True, bool_types=True, max_visits=1):
         self.fn = fn
         self.is_effect = is_effect or (lambda c: False)
         self.pure = pure or (lambda c: False)
@@ -137,6 +137,7 @@ class Explorer:
         self.stop_at = set(stop_at)
         self.max_paths = max_paths
         self.record_stores = record_stores
+        self.max_visits = max_visits
         self.results = []
         self.call_ord = {c.bb: c for c in fn.calls()}
 
@@ -445,14 +446,14 @@ class Explorer:
     def step(self, st, bb, stack):
         fn = self.fn
         while True:
-            if bb in st.visited:
+            if st.visited.get(bb, 0) >= self.max_visits:
                 self.finish(st, "loop", bb)
                 return
             if bb in self.stop_at:
                 st.blocks.append(bb)
                 self.finish(st, "stop", bb)
                 return
-            st.visited.add(bb)
+            st.visited[bb] = st.visited.get(bb, 0) + 1
             st.blocks.append(bb)
             blk = fn.blocks[bb]
             for s in blk["s"]:
@@ -495,6 +496,10 @@ class Explorer:
                     val = self.model(c, argd, st, self)
                 if val is None:
                     val = self.default_call_value(c, argd)
+                    nvis = st.visited.get(bb, 1)
+                    if nvis > 1 and val[0] == "atom" and val[1].startswith("call:"):
+                        # a second evaluation of the same call site (unrolled loop) is a fresh unknown
+                        val = ("atom", val[1] + "@%d" % nvis)
                 # havoc locals whose &mut escapes into the call
                 for a in argv:
                     if a[0] == "ref" and len(a) > 2 and a[2]:
